@@ -96,7 +96,7 @@ StructInit == IF Size = 0 THEN {Program(<<Reg("q", 2)>>, CRegs, <<>>, <<>>), Pro
               ELSE {Program(l, CRegs, g, <<>>) : l \in Layouts, g \in GateSets}
 SmallExprs == IF Size = 0 THEN {MkBin("div", Pi, Num(2, 0, FALSE)), MkBin("mul", Num(2, 0, FALSE), Par(MkBin("add", Num(1, 0, FALSE), Num(2, 0, FALSE))))}
               ELSE {MkBin("div", Pi, Num(2, 0, FALSE)), MkBin("mul", Num(2, 0, FALSE), Par(MkBin("add", Num(1, 0, FALSE), Num(2, 0, FALSE)))),
-                    Neg(MkBin("div", Pi, Num(4, 0, FALSE))), Num(3, -1, TRUE)}
+                    MkBin("div", Neg(Pi), Num(4, 0, FALSE)), Num(3, -1, TRUE)}
 Bits(P) == {QA(P.qregs[i].n, j) : <<i, j>> \in {x \in (1..Len(P.qregs)) \X (0..2) : x[2] < P.qregs[x[1]].s}}
 Wholes(P) == {QA(P.qregs[i].n, -1) : i \in 1..Len(P.qregs)}
 Args(P) == Bits(P) \cup Wholes(P)
@@ -140,8 +140,8 @@ Init == \/ fam = "seed" /\ prog \in {s \in Seeds : s.f \in Fams}
 Expand == /\ fam = "seed"
           /\ \/ prog.f = "expr" /\ fam' = "expr" /\ prog' \in {ExprProgram(e) : e \in ExprSetOf(prog.b)}
              \/ prog.f = "bind" /\ fam' = "bind" /\ prog' \in BindSetOf(prog.b, prog.n)
-\* the quick configuration stops after one statement on the four-qubit layout
-Budget(P) == IF Size = 0 /\ NQ(P) >= 4 THEN 1 ELSE MaxStmts
+\* layouts with four or more qubits get one statement (their menus are large), the others MaxStmts
+Budget(P) == IF NQ(P) >= 4 THEN 1 ELSE MaxStmts
 AddStmt == /\ fam = "struct" /\ Len(prog.stmts) < Budget(prog)
            /\ \E s \in Menu(prog) : prog' = [prog EXCEPT !.stmts = Append(@, s)]
            /\ UNCHANGED fam
